@@ -200,7 +200,7 @@ ENCODED = [
 ]
 BOUNDS = {
     "quick": ["views: any invariant-satisfying (start, stop) on a parent of any length, step C in {-3..3}\\{0}, any offset >= 0", "indel maps: <= 2 gap runs, unbounded coordinates; feature maps: <= 3 spans (spans and lost spans)",
-              "alignment rows: <= 1 gap run (thorough 2), both strands", "Table (3 rows, symbolic cells in 0..2 / {0, 0.5}, after none / sorted / get_columns / filtered / appended), DictArray and DistanceMatrix (symbolic cells) through JSON and back", "whole objects: SequenceCollection / Alignment / ArrayAlignment of 2 rows x 3 columns with symbolic content (2 symbolic characters of row a over {A,C,-,N}, first of row b over {G,-}), after none / slice[i:j] / rc / take_seqs / slice+rc, through JSON and back, twice", "trees: to_rich_dict -> deserialise_tree for every shape with 3..4 tips (thorough 5) and symbolic branch lengths (names fixed)"],
+              "alignment rows: <= 1 gap run (thorough 2), both strands", "Table (3 rows, symbolic cells in 0..2 / {0, 0.5}, after none / sorted / get_columns / filtered / appended), DictArray and DistanceMatrix (symbolic cells) through JSON and back", "whole objects: SequenceCollection / Alignment / ArrayAlignment of 2 rows x 3 columns with symbolic content (3 symbolic characters of row a over {A,C,-,N} (2 with a slice), first of row b over {G,-}), after none / slice[i:j] / rc / take_seqs / slice+rc, through JSON and back, twice", "trees: to_rich_dict -> deserialise_tree for every shape with 3..4 tips (thorough 5) and symbolic branch lengths (names fixed)"],
     "thorough": ["as quick with C in {-6..6}\\{0}; rows with <= 2 gap runs; whole objects with 3 symbolic characters"],
 }
 ASSUMPTIONS = c01.ASSUMPTIONS[:2] + [
@@ -240,7 +240,7 @@ def obligations(tier):
         for hist in c10_objects.HISTORIES:
             if kind == "SequenceCollection" and hist in ("slice", "slice_rc"):
                 continue
-            obs.append(Ob(f"objects/{kind}/{hist}", "props.c10_objects", "mk_object", {"kind": kind, "history": hist, "nsym": (3 if T else 2) - (1 if hist.startswith("slice") else 0)}, timeout=3600 if T else 1800, group="objects"))
+            obs.append(Ob(f"objects/{kind}/{hist}", "props.c10_objects", "mk_object", {"kind": kind, "history": hist, "nsym": 3 - (1 if hist.startswith("slice") else 0)}, timeout=1800, group="objects"))
     for hist in c10_objects.TABLE_HISTORIES:
         obs.append(Ob(f"objects/Table/{hist}", "props.c10_objects", "mk_table_object", {"history": hist}, timeout=1800, group="objects"))
     for kind in ("DictArray", "DistanceMatrix"):
